@@ -149,7 +149,8 @@ def run(st, drv, root, batch):
         else:
             main, disk, mf = build(main_items, files, world)
         m = reftext.meaning(I2, 0, main, files=mf)
-        lines = world.setup() + ['mkfile %s %s' % (enc(n), enc(c)) for n, c in disk.items()]
+        decoys = ['mkdir ' + enc(b'sp1/' + n) for n in files] if world.placement == 'sp2' else []      # a directory of the same name in the earlier search directory never matches
+        lines = world.setup() + decoys + ['mkfile %s %s' % (enc(n), enc(c)) for n, c in disk.items()]
         lines += ['init A I2 0'] + world.paths() + ['parse_buf A ' + enc(main), 'dump A 0', 'lexstate']
         c = Case(lines)
         cases.append(c)
